@@ -207,6 +207,7 @@ theorem wfr_fstep (s : Server) (h : WFR s) (op : FOp) : WFR (fstep s op) := by
     simp only [fstep, (allocateConn_fields s c si shs size rec free order).2] at he
     exact wfr_allocate s h si shs size rec free order e he
   | disconnect c => exact wfr_foldl_abort _ s h
+  | restart => intro e he; simp [fstep, restartOp] at he
   | direct o =>
     cases o with
     | alloc si shs size rec free order => exact wfr_allocate s h si shs size rec free order
